@@ -106,7 +106,7 @@ class Frame(AV):
         self.filters = []
         self.written = set()
         self.labels_positional = False
-        self.lab_root = object()  # family of row labels (E11): kept by copies / selections / sorts, renewed by reset_index
+        self.lab_root = object()  # family of row labels (E17): kept by copies / selections / sorts, renewed by reset_index
 
     def col(self, name):
         if name in self.cols:
